@@ -84,6 +84,44 @@ NEEDS = {
  "C19-D": ("C19", "patience.rs: gaps between matched unique items are diffed recursively with Patience instead of Myers", "deeply nested uniqueness (u2 u3 u2 u4 u3 ...) behind a differing core"),
  "C20-C": ("C20", "abstraction.rs [u8]::tokenize_chars: a char decoded as U+FFFD is split into one token per byte (meant for invalid UTF-8)", "a literal, validly encoded U+FFFD in the text"),
  "C20-D": ("C20", "utils.rs unique(): MAX_UNIQUE_ITEMS = 2048 applied with .take() on the HashMap iterator BEFORE the sort", "Patience + more than 2048 once-occurring items on one side + moved blocks"),
+ "C01-E": ("C01", "myers.rs find_middle_snake: the guard `x < old_range.len() && y < new_range.len()` before the snake extension removed as redundant (range.start + x overflows for out-of-box points)", "an Index implementation whose in-bounds range ends at or next to usize::MAX + a lopsided box"),
+ "C01-F": ("C01", "replace.rs Replace::flush_eq: the pending equal run is cleared only after the inner hook accepted it", "three steps: the hook errs exactly on an equal, the caller keeps the same Replace object, then runs another diff (adapter re-use after a hook error)"),
+ "C03-E": ("C03", "lcs.rs make_table: memory guard MAX_TABLE_CELLS = 1 << 28 returns None (the deadline fallback) without any deadline", "Algorithm::Lcs + a trimmed middle above 16384 x 16384 cells that still shares an item (only sparse inputs are feasible)"),
+ "C03-F": ("C03", "hook.rs: the finish forwarder of `impl DiffHook for &mut D` removed (no-op default swallows the call)", "a buffering Replace/Compact passed BY REFERENCE as an inner stage: Compact::new(&mut replace, ..)"),
+ "C04-E": ("C04", "text/mod.rs: 'buffer diffed against itself' fast path compares token start addresses only", "old and new are ALIASING views of one allocation whose last token differs in length (&buf[..len-1] vs &buf[..])"),
+ "C04-F": ("C04", "text/mod.rs diff_lines: under newline_terminated(false) line tokens are trimmed of their terminator", "explicit newline_terminated(false) together with the lines tokenizer"),
+ "C05-E": ("C05", "udiff.rs Display for UnifiedDiffHunk prints Change's own Display (terminator added by content, not by the diff's flag)", "a line diff built from pre-split line tokens (from_slices / diff_slices) whose items end in CR or LF, seen through Display only"),
+ "C05-F": ("C05", "udiff.rs: MissingNewlineHint replaced by a constant with the flag moved into the `if` (drops the record terminator when the hint is off)", "missing_newline_hint(false) + old text lacking its final newline + that last line replaced"),
+ "C06-E": ("C06", "abstraction.rs: word tokenizers use a hand-written White_Space table with a stale U+180E entry", "the single character U+180E MONGOLIAN VOWEL SEPARATOR"),
+ "C06-F": ("C04", "text/mod.rs TextDiffConfig::diff_lines strips a leading UTF-8 BOM before tokenizing (the author filed it under C06; the tokenizers themselves are untouched: it breaks C04 / C14)", "input starting with U+FEFF through the TextDiff line constructor"),
+ "C07-E": ("C07", "myers.rs find_middle_snake: cost cap d_max.min(1 << 12) when deadline.is_some()", "a deadline that is SET but never expires + edit distance above 8192 in a single box + comparison with the no-deadline result"),
+ "C07-F": ("C07", "text/mod.rs: in the > 100-token branch the deadline is re-derived after hashing; the else arm for Deadline::Absolute yields None", "text builder + .deadline(instant) (not timeout) + more than 100 tokens"),
+ "C08-E": ("C08", "algorithms/mod.rs: diff_slices delegates to diff_slices_deadline which calls an extra d.finish() for Lcs when a side is empty", "entry through the slice shortcuts + Lcs + an empty side"),
+ "C08-F": ("C08", "compact.rs: Compact gets a replace override that flushes by calling self.finish()", "replace delivered INTO Compact: reversed stack Replace<Compact<H>> or a hand-driven Compact"),
+ "C09-E": ("C09", "hook.rs: impl DiffHook for &mut D no longer forwards replace", "Compact::new(Replace::new(&mut capture), ..): the collecting hook held by &mut"),
+ "C09-F": ("C09", "compact.rs + common.rs: Compact gets an optional deadline and skips cleanup_diff_ops when Instant::now() > deadline (reads the clock directly, bypassing deadline_exceeded)", "the real deadline expires after the algorithm's last check but before the clean-up (or: a virtual-clock run that hands over an already-past dummy Instant)"),
+ "C10-E": ("C10", "hook.rs: impl DiffHook for &mut D no longer forwards replace", "the collecting hook (or the Replace) held by &mut and a delete next to an insert"),
+ "C10-F": ("C10", "replace.rs finish: the pending equal run is emitted without take()", "ONE Replace object used for two scripts in a row, the first ending in an Equal"),
+ "C11-E": ("C11", "replace.rs Replace::replace: pass-through replace() calls flush_del_ins() instead of flush_eq()", "replace() events arriving at a Replace hook: Replace(Replace(Capture)) or captured ops replayed via apply_to_hook into Replace(Capture)"),
+ "C11-F": ("C11", "types.rs DiffOp::apply_to_hook refactored over as_tag_tuple(): the Replace arm passes old.len() as new_len", "a Replace op with different side lengths replayed through apply_to_hook"),
+ "C12-E": ("C12", "text/mod.rs TextDiff::grouped_ops: 'same buffer means no changes' shortcut compares old.as_ptr() == new.as_ptr()", "from_slices / diff_slices over two sub-slices of ONE token buffer with a common start and different lengths"),
+ "C12-F": ("C12", "udiff.rs free function unified_diff: context_radius(n) only applied inside `if let Some(header)`", "udiff::unified_diff with header None and n != 3"),
+ "C13-E": ("C17", "utils.rs SliceRemapper::new: token byte ranges from pointer offsets (author filed it under C13; it is the remapper of C17)", "the remapper is given equal-content COPIES of the strings the diff tokenized"),
+ "C13-F": ("C13", "iter.rs AllChangesIter::next re-uses the per-op iterator via a reset() that keeps the reported old_index/new_index counters", "public UnifiedDiffHunk::new with NON-CONTIGUOUS caller-chosen ops, then hunk.iter_changes()"),
+ "C14-E": ("C14", "text/mod.rs: the > 100-token branch diffs 64-bit DefaultHasher hashes of the tokens instead of the tokens", "more than 100 tokens + a hash collision: a user-defined DiffableStr type with a legal but weak Hash (or a real SipHash collision)"),
+ "C14-F": ("C14", "text/mod.rs: 'input only grew at one end' shortcut writes the ops down without running an algorithm (prepend case wrong when the first inserted token equals the first old token)", "more than 100 tokens + old an exact suffix (not prefix) of new + coinciding first tokens"),
+ "C15-E": ("C15", "utils.rs UniqueItem::eq: identity shortcut — same lookup object => compare indexes", "old and new are the SAME object with different ranges (one shared buffer) + a unique item crossing a block of repeats"),
+ "C15-F": ("C15", "utils.rs unique(): map value narrowed to u32 with u32::MAX as duplicate marker", "offset/window lookups whose index space reaches 2^32 - 1 (a unique item exactly at index 4294967295) or beyond"),
+ "C16-E": ("C16", "inline.rs push_values: line breaks are un-emphasised only when diff.newline_terminated() is true", "TextDiff::configure().newline_terminated(false).diff_lines(..) + a word-level change that reaches a line end"),
+ "C16-F": ("C16", "inline.rs MultiLookup::get_original_slices rewritten over first/last token + whole middle lines with a wrong middle index", "a single word-level op spanning three or more lines and starting after the first line of a Replace block of four or more lines (reflowed paragraphs)"),
+ "C17-E": ("C17", "utils.rs diff_chars: 'same buffer' fast path returns a single Equal when both texts have the same data pointer", "old and new are aliasing views of one allocation with different lengths (s vs &s[..k])"),
+ "C17-F": ("C17", "utils.rs SliceRemapper: offset table narrowed to Range<u32>", "texts of 4 GiB or more"),
+ "C18-E": ("C18", "text/mod.rs get_close_matches: heap score ratio * (1 << 24) instead of ratio * u32::MAX", "combined lengths around 9000 characters + two different ratios below 0.5 less than 2^-24 apart + the less similar candidate sorting first alphabetically"),
+ "C18-F": ("C18", "text/mod.rs get_close_matches: Algorithm::Patience when word and candidate are longer than 1000 characters", "both sides over 1000 characters + a doubly-unique character that moved (rotation / moved marker)"),
+ "C19-E": ("C19", "utils.rs unique(): default SipHash replaced by a cheap multiplicative hasher whose low bits depend only on the low key bits", "integer items with >= 16 constant low bits (multiples of 2^16): N^2/256 comparisons regardless of D"),
+ "C19-F": ("C19", "utils.rs unique(): hasher that only samples long items (length + first and last 32 bytes)", "distinct items of equal length > 64 bytes sharing head and tail (fixed-layout records)"),
+ "C20-E": ("C20", "patience.rs: unique items failing a 4096-bit bloom filter (DefaultHasher) built from the other side's unique items are dropped", "Patience + at least 256 once-occurring items per side + moved blocks plus UNMATCHED unique items + comparison against a relabelled copy"),
+ "C20-F": ("C20", "common.rs capture_diff_slices_deadline: returns one Equal when old.as_ptr() == new.as_ptr() (no length check)", "old and new are slices of one buffer with the same start and different lengths"),
  "revert-D1": ("C01", "reverse of fix 813e92c (lcs identical-ranges shortcut ignores range starts)", "Lcs on identical sub-ranges with non-zero starts"),
  "revert-D2": ("C03", "reverse of fix 5daca5f (lcs table built over the wrong items)", "Lcs with a common prefix or non-zero range starts"),
  "revert-D3": ("C09", "reverse of fix 63c9d1e (lcs zero-length delete for two empty ranges)", "Lcs on two empty ranges"),
@@ -91,6 +129,7 @@ NEEDS = {
  "revert-D6": ("C05", "reverse of fix 2a43633 (UnifiedDiff::to_writer goes through Display)", "[u8] line diff with invalid UTF-8 written with to_writer"),
  "revert-D7": ("C06", "reverse of fix 5745354 ([u8] unicode tokenizers return U+FFFD tokens)", "[u8] with invalid UTF-8, unicode words / graphemes"),
  "revert-D8": ("C12", "reverse of fix 6a43cf1 (n * 2 overflow in group_diff_ops)", "context radius > usize::MAX / 2"),
+ "revert-D9": ("C14", "reverse of fix dcb9010 (IdentifyDistinct computes the next id eagerly)", "exactly 256 distinct items with IdentifyDistinct::<u8> (65 536 with u16), debug builds"),
 }
 
 matrix = {}
@@ -107,7 +146,7 @@ for sid in sorted(os.listdir(os.path.join(ROOT, "seeded"))):
         continue
     prop, what, needs = NEEDS.get(sid, ("?", "?", "?"))
     meta = {"id": sid, "breaks_property": prop, "change": what, "needs_to_manifest": needs,
-            "origin": "reverse patch of a fix: commit in /repo (the historical defect)" if sid.startswith("revert-") else ("independent sub-agent, round 2: given the property text, a scratch worktree and the list of round-1 changes (all caught), asked for changes that are harder to detect" if sid[-1] in "CD" else "independent sub-agent, round 1: given only the property text and a scratch worktree"),
+            "origin": "reverse patch of a fix: commit in /repo (the historical defect)" if sid.startswith("revert-") else ("independent sub-agent, round 2: given the property text, a scratch worktree and the list of round-1 changes (all caught), asked for changes that are harder to detect" if sid[-1] in "CD" else ("independent sub-agent, round 3: additionally told what the checker evidently covers after two rounds and asked for what it would STILL miss" if sid[-1] in "EF" else "independent sub-agent, round 1: given only the property text and a scratch worktree")),
             "ran": []}
     c = os.path.join(d, "confirm.txt")
     if os.path.exists(c):
